@@ -12,7 +12,9 @@ RULE = (
     "x every post-pause decision vector; oracle: every state_hook edge is in RunEngineStateMachine.Meta.transitions (read at run "
     "time), state after every blocking call of the caller in {idle, paused}, never panicked, no deadlock/livelock/blocked request, "
     "a legal call (resume/abort/stop/halt when paused, RE(...) when idle) is never refused; "
-    "non-trivial = behaviour digest differs from the reference run"
+    "non-trivial = behaviour digest differs from the reference run. "
+    "X2: explicit-state BFS over the real engine for the lifecycle scenario (thorough: also tiny, clearcp, async tiny) with an unbounded "
+    "number of serially issued requests; the same invariants on every edge plus AG EF idle on the graph (see coverage.x2)"
 )
 ASSUMPTIONS = _x1.X1_ASSUMPTIONS + [
     "'blocking call has returned' is read as a call made by the caller's thread; abort()/stop()/halt() issued from a second "
@@ -60,4 +62,71 @@ def oracle(scn, obs, ref, schedule):
     return out
 
 
-items, run_item, replay, describe = _x1.bind(SPECS, oracle, chunk=16)
+_items, _run_item, _replay, _describe = _x1.bind(SPECS, oracle, chunk=16)
+
+# X2: explicit-state search of the lifecycle quotient graph (unbounded number of serially issued requests)
+X2_SCENARIOS = {"quick": [("lifecycle", {})], "thorough": [("lifecycle", {}), ("tiny", {}), ("clearcp", {}), ("tiny", {"a": 1})]}
+
+
+def items(tier, seed):
+    from bsv.explore import statespace
+
+    out = _items(tier, seed)
+    for key, params in X2_SCENARIOS[tier]:
+        rep = statespace.search(key, params, max_states=150000)
+        out.append({"x2": rep, "scn": key, "params": params})
+    return out
+
+
+def run_item(item):
+    if "x2" not in item:
+        return _run_item(item)
+    rep = item["x2"]
+    if "error" in rep:
+        return {"evaluations": 0, "harness_errors": [{"x2": rep["error"], "scn": item["scn"]}]}
+    vs = [dict(v, scenario=item["scn"], params=item["params"], x2=True) for v in rep["violations"]]
+    tag = f"x2_{item['scn']}{'_a' if item['params'].get('a') else ''}"
+    return {
+        "evaluations": rep["builds"],
+        "transitions": rep["transitions"],
+        "states": {f"{tag}:{i}" for i in range(rep["states"])},
+        "nontrivial": set(),
+        "outcomes": {f"x2:{k}": v for k, v in rep["states_by_engine_state"].items()},
+        "violations": vs,
+        "samples": [{"x2_history": rep["sample_histories"][-1]}] if rep["sample_histories"] else [],
+        "extra": {
+            f"{tag}_graph_states": rep["states"],
+            f"{tag}_graph_transitions": rep["transitions"],
+            f"{tag}_terminal_states": rep["terminal_states"],
+            f"{tag}_states_with_no_way_back_to_idle": rep["stuck_states"] or 0,
+            f"{tag}_max_history_length": rep["depth"],
+            "caps_hit": rep["caps_hit"],
+        },
+    }
+
+
+def replay(payload):
+    if not payload.get("x2"):
+        return _replay(payload)
+    from bsv.explore import statespace
+    from bsv.oracles.engine import transitions_table
+
+    hist = [tuple(a) if isinstance(a, list) else a for a in payload["hist"]]
+    hist = [(a[0], tuple(a[1])) if isinstance(a, tuple) and a[0] == "inj" else a for a in hist]
+    _scn, obs = statespace.build(payload["scenario"], payload.get("params") or {}, hist)
+    return [{"rule": r, "detail": d} for r, d in statespace.check_build(obs, transitions_table())]
+
+
+def describe(tier):
+    d = _describe(tier)
+    d["x2"] = {
+        "scenarios": [k for k, _p in X2_SCENARIOS[tier]],
+        "what": "explicit-state BFS over the real RunEngine: state = action history replayed on a fresh engine, merged by a canonical hash of the live "
+        "engine (state machine, flags, message cache, plan-stack positions, _run await chain, ready queue, timers, bundler counters); actions: one loop "
+        "callback, one request from {pause, deferred pause, abort, stop, halt, suspend}, release of the oldest suspension, caller decision when paused",
+        "discipline": "serial-request fragment: a request only when no earlier request is in flight; after an accepted abort/stop/halt only loop steps; "
+        "no pause/suspension when more than 3 generators are stacked on the plan stack, at most 1 replay generator and 1 suspension helper",
+        "invariants": "every edge's state changes are in the declared table; no panicked; every completed caller call ends idle|paused; no legal call refused; "
+        "no deadlock/livelock; from every state an idle engine is reachable by loop steps, releases and caller decisions alone (AG EF idle)",
+    }
+    return d
